@@ -92,7 +92,8 @@ Section Prog.
   (* well-formed steps: constants/initializers/arguments have no operands *)
   Definition wf_step (st : step) : Prop :=
     (match s_kind st with KSource _ => s_args st = [] | _ => True end) /\
-    (s_is_arg st = true -> s_kind st = KPlain /\ s_args st = [] /\ s_cast st = None).
+    (s_is_arg st = true -> s_kind st = KPlain /\ s_args st = [] /\ s_cast st = None) /\
+    (s_cast st <> None -> List.length (s_args st) = 1).
 
   (* --- dependency cones -------------------------------------------------------------------------------- *)
   (* dep[j] = true iff environment entry j has an Argument in its dependency cone *)
